@@ -36,10 +36,13 @@ def run(ctx):
     from . import scope as _scope
     ctx.guard(_scope.symbols_exact, ctx, 'C06-SYMBOLS')
     ctx.guard(params_rule, ctx)
+    ctx.guard(context_rule, ctx)
     from . import c08 as _c08, c13 as _c13, lexrules as _lex
     _g = _lex.grammar_of(ctx.repo, 'bridgepoint.oal:OALParser')
     ctx.shared(_c08.taint, ctx, _g, _c08.keyword_fields(ctx, _g))   # cardinality keywords decide V_INT / V_INS and the select subtype
     ctx.shared(_c13.track, ctx)                # node positions are what prebuild copies into the instances
+    from . import c05 as _c05
+    ctx.shared(_c05.chain_rule, ctx)           # prebuild's own walks along the succession associations (last step of a chain)
     from . import listnodes
     ctx.guard(listnodes.check, ctx, 'C06-NONE')
     ctx.guard(oblig_rule, ctx, ki)
@@ -468,6 +471,39 @@ def scope_rule(ctx):
     ls = repo.func(PB + ':SymbolTable.leave_scope')
     r.check(pm.contains('self.stack.append(_S)', es) and pm.contains('_S = self.stack.pop()', ls), 'scopes form a stack', es,
             construct=PB + ':SymbolTable', key='stack', msg='enter_scope/leave_scope no longer push/pop self.stack')
+
+
+def context_rule(ctx):
+    '''a handler that receives the statement context (a parameter with default None such as act_smt) and hands the node on to another
+    handler that takes the same parameter passes it on: otherwise the callee builds its value without the statement subtype
+    (ACT_TFM / ACT_BRG ...) and the ACT_SMT is left without any R603 subtype'''
+    repo = ctx.repo
+    r = ctx.rule('C06-CONTEXT', 'the statement context is forwarded by every dispatching handler', floor=3,
+                 oracle='sibling branches of the dispatchers; every statement has exactly one subtype')
+    for cls in repo.classes(PB):
+        methods = repo.methods(cls)
+        for name, m in sorted(methods.items()):
+            a = m.args
+            ps = [x.arg for x in a.posonlyargs + a.args]
+            ctxp = [p_ for p_, d in zip(ps[len(ps) - len(a.defaults):], a.defaults) if isinstance(d, ast.Constant) and d.value is None]
+            if not ctxp or not name.startswith('accept_'):
+                continue
+            for c in ast.walk(m):
+                if not (isinstance(c, ast.Call) and isinstance(c.func, ast.Attribute) and isinstance(c.func.value, ast.Name) and
+                        c.func.value.id == 'self' and c.func.attr.startswith('accept_') and c.func.attr in methods):
+                    continue
+                callee = methods[c.func.attr]
+                cps = [x.arg for x in callee.args.posonlyargs + callee.args.args][1:]
+                for p_ in ctxp:
+                    if p_ not in cps:
+                        continue
+                    passed = any(k.arg == p_ and isinstance(k.value, ast.Name) and k.value.id == p_ for k in c.keywords) or \
+                        (len(c.args) > cps.index(p_) and isinstance(c.args[cps.index(p_)], ast.Name) and c.args[cps.index(p_)].id == p_) or \
+                        any(k.arg is None for k in c.keywords)
+                    q = '%s:%s.%s' % (PB, cls.name, name)
+                    r.check(passed, '%s passes `%s` on to %s' % (name, p_, c.func.attr), c, construct=q, key='context %s->%s' % (p_, c.func.attr),
+                            msg='%s receives `%s` but calls %s without it: the callee then builds the invocation as a value only; used as a statement '
+                                'the ACT_SMT gets no subtype across R603' % (q, p_, c.func.attr))
 
 
 def params_rule(ctx):
